@@ -275,8 +275,61 @@ fn run_router(case: &Value) -> Obs {
     o
 }
 
+/// Hint-directed twin / router cases: the hinted strings as literals, hosts, haystacks; the hinted sizes as cache limits.
+fn gen_hinted_twin(h: &Hints, rng: &mut Prng, emit: &mut dyn FnMut(Value)) {
+    let l = |s: &str| Tok::L(s.to_string());
+    let g = |s: &str| Tok::G(s.to_string());
+    let mut limits: Vec<Value> = vec![json!(0), json!(1), json!(2), Value::Null];
+    for n in h.sizes(1_000_000) {
+        limits.push(json!(n));
+    }
+    // `RegexTreeMap::cache` takes a number; `Router::cache` also `None`
+    let tree_limits: Vec<Value> = limits.iter().map(|l| if l.is_null() { json!(100) } else { l.clone() }).collect();
+    let mut strs = hint_strings(h);
+    if strs.is_empty() {
+        strs.push("é".to_string());
+    }
+    for t in strs {
+        for body in ["?:\\w+", "?:\\d+", "?:[^/]+", "?:.+?", "?:\\S+", "?:."] {
+            let pool: Vec<Pat> = vec![vec![l("/"), l(&t), g(body)], vec![l("/"), l(&t), g(body), l("/z")], vec![l("/"), g(body), l(&t)], vec![l("/"), l(&t.to_uppercase())]];
+            let mut ops: Vec<Value> = Vec::new();
+            for (i, p) in pool.iter().enumerate() {
+                ops.push(json!(["i", pat_json(p), format!("i{i}"), i]));
+                ops.push(json!(["c", tree_limits[i % tree_limits.len()], Value::Null]));
+            }
+            for lim in &tree_limits {
+                ops.push(json!(["c", lim, rng.pick(&[json!(0), json!(1), json!(2), Value::Null]).clone()]));
+            }
+            ops.push(json!(["r", "i0"]));
+            let hay = vec![format!("/{t}é"), format!("/{t}٤٢"), format!("/{t}a/z"), format!("/Ж{t}"), format!("/{}", t.to_uppercase()), format!("/{}", t.to_lowercase()), format!("/{t}{t}"), format!("/{t}")];
+            for ic in [false, true] {
+                emit(json!({"mode": "twin", "ic": ic, "unique": false, "ops": ops, "hay": hay}));
+            }
+        }
+        // router: the string in the path literal, in the host literal, in the request
+        let rules = json!([
+            {"id": "r0", "path": format!("/{t}/@m0"), "host": Value::Null, "markers": [{"name": "m0", "regex": "\\w+"}]},
+            {"id": "r1", "path": "/x", "host": format!("{t}@m1.example.com"), "markers": [{"name": "m1", "regex": "[^.]+"}]},
+            {"id": "r2", "path": format!("/@m2{t}"), "host": "example.com", "markers": [{"name": "m2", "regex": ".+?"}]},
+        ]);
+        let reqs = json!([
+            {"path": format!("/{t}/é"), "host": Value::Null}, {"path": format!("/{}/Ж9", t.to_uppercase()), "host": Value::Null},
+            {"path": "/x", "host": format!("{t}é.example.com")}, {"path": "/x", "host": format!("{}É.EXAMPLE.com", t.to_uppercase())},
+            {"path": format!("/é{t}"), "host": "example.com"}, {"path": format!("/{t}"), "host": "example.com"},
+        ]);
+        for (ihc, ipc) in [(false, false), (true, true)] {
+            emit(json!({"mode": "router", "cfg": {"ihc": ihc, "ipc": ipc, "any": false}, "rules": rules, "reqs": reqs, "limits": limits}));
+        }
+    }
+}
+
 fn gen(args: &Args, emit: &mut dyn FnMut(Value)) {
     let mut rng = Prng::new(args.seed ^ 0xC12);
+    let h = hints();
+    if !h.is_empty() {
+        gen_hinted_tree(&h, &mut rng, emit, true);
+        gen_hinted_twin(&h, &mut rng, emit);
+    }
     if args.tier == "thorough" {
         // exhaustive (limit, level) over every tree built from <=4 patterns of the C08 pool
         let pool = exh_pool();
